@@ -195,6 +195,11 @@ impl Session {
                 let (s, d) = (parse_hex(s)?, unhex(d)?);
                 Some(res_unit(self.ax().mem_init_area_named(s, d, name_opt(nm))))
             }
+            ["areaz", s, n, seed, nm] => {
+                let (s, n, seed) = (parse_hex(s)?, parse_hex(n)?, parse_hex(seed)?);
+                let d = lcg_bytes(seed, n as usize);
+                Some(res_unit(self.ax().mem_init_area_named(s, d, name_opt(nm))))
+            }
             ["zero", s, n, nm] => {
                 let (s, n) = (parse_hex(s)?, parse_hex(n)?);
                 Some(res_unit(match name_opt(nm) {
@@ -247,6 +252,7 @@ impl Session {
                 )
             }
             ["dec", ..] => Some("-".into()),
+            ["nonative"] => Some("-".into()),
             ["step"] => {
                 let before = self.ax().verif_pipes();
                 let r = step_str(block_on(self.ax().step()));
@@ -286,6 +292,17 @@ impl Session {
                 let i: usize = i.parse().ok()?;
                 let v = parse_hex128(v)?;
                 self.ax().reg_write_128(XMM[i], v).ok()?;
+                Some("-".into())
+            }
+            ["setxmms", v] => {
+                let vals: Option<Vec<u128>> = v.split(',').map(parse_hex128).collect();
+                let vals = vals?;
+                if vals.len() != 16 {
+                    return None;
+                }
+                for (i, x) in vals.iter().enumerate() {
+                    self.ax().reg_write_128(XMM[i], *x).ok()?;
+                }
                 Some("-".into())
             }
             ["xmms"] => {
